@@ -11,7 +11,10 @@ import (
 // PrintOpts selects how a program is rendered as text.
 type PrintOpts struct {
 	Tree       string // "": chains as written; "asp": fully parenthesised along asp's own grouping; "py": along Python's
+	TreeSwallow bool  // like Tree "py", only for chains in which an operator swallows (finding ops-right-operand-swallows-rest)
+	TreeLazy   bool   // like Tree "py", only for other chains in which and/or is followed by a tighter operator
 	Mod        bool   // a % b  ->  _mod(a, b)            (floor modulo built from the interpreter's own %)
+	FloorDiv   bool   // a // b ->  _fdiv(a, b)           (floor division built from the interpreter's integer / and %)
 	AddCopy    bool   // a + b  ->  _cp(a) + b            (left operand copied: no spare capacity, no aliasing)
 	SliceCopy  bool   // a[i:j] ->  _cp(a[i:j])
 	SortCopy   bool   // sorted(x) / reversed(x) -> sorted(_cp(x)) / reversed(_cp(x))
@@ -22,13 +25,16 @@ type PrintOpts struct {
 	ConfigCopy bool   // CONFIG[k] -> _dc(CONFIG[k])    (private copies of what is read from CONFIG; C17)
 }
 
-func (o PrintOpts) needsTree() bool { return o.Mod || o.AddCopy }
+func (o PrintOpts) needsTree() bool { return o.Mod || o.AddCopy || o.FloorDiv }
 
 // _cp recognises lists by their printed form: isinstance(x, list) is False for a frozen list (a C18 finding).
 const repairPrelude = `def _cp(x):
     return [_e for _e in x] if (not isinstance(x, str)) and str(x).startswith("[") else x
 def _mod(a, b):
     return ((a % b) + b) % b if isinstance(a, int) else a % b
+def _fdiv(a, b):
+    q = a / b
+    return q - 1 if (a % b != 0) and ((a < 0) != (b < 0)) else q
 `
 
 // ---------------------------------------------------------------- grouping (the harness's own copies)
@@ -122,6 +128,17 @@ func swallows(ops []flatOp) bool {
 					return true
 				}
 			}
+		}
+	}
+	return false
+}
+
+// lazyTight: an `and` / `or` is directly followed by a tighter operator — interpretOps then evaluates the rest of the
+// list first and asks for the truthiness of the left value a second time afterwards.
+func lazyTight(ops []flatOp) bool {
+	for i := 0; i+1 < len(ops); i++ {
+		if (ops[i].Op == "and" || ops[i].Op == "or") && aspPrec(ops[i].Op) < aspPrec(ops[i+1].Op) {
+			return true
 		}
 	}
 	return false
@@ -248,6 +265,9 @@ func (p *printer) tree(t *T) string {
 	if p.o.Mod && t.Bin == "%" {
 		return "_mod(" + l + ", " + r + ")"
 	}
+	if p.o.FloorDiv && t.Bin == "//" {
+		return "_fdiv(" + l + ", " + r + ")"
+	}
 	if p.o.AddCopy && t.Bin == "+" {
 		return "(_cp(" + l + ") " + "+ " + r + ")"
 	}
@@ -331,6 +351,12 @@ func (p *printer) expr(e *E, pos bool) string {
 		return "lambda " + strings.Join(e.Vars, ", ") + ": " + p.expr(e.A[0], true)
 	case "ch":
 		tree := p.o.Tree
+		if tree == "" && (p.o.TreeSwallow || p.o.TreeLazy) {
+			fl := flatten(e)
+			if sw := swallows(fl); p.o.TreeSwallow && sw || p.o.TreeLazy && !sw && lazyTight(fl) {
+				tree = "py"
+			}
+		}
 		if tree == "" && p.o.needsTree() {
 			tree = "asp"
 		}
@@ -460,7 +486,7 @@ func (p *printer) cp(x string) string {
 // Print renders a program. With any asp-side repair the helper definitions are prepended.
 func Print(prog []*S, o PrintOpts) string {
 	var b strings.Builder
-	if o.Mod || o.AddCopy || o.SliceCopy || o.SortCopy {
+	if o.Mod || o.AddCopy || o.SliceCopy || o.SortCopy || o.FloorDiv {
 		b.WriteString(repairPrelude)
 	}
 	p := &printer{o: o}
@@ -475,6 +501,8 @@ func Print(prog []*S, o PrintOpts) string {
 type features struct {
 	maxChain   int
 	swallow    bool
+	lazyTight  bool
+	fdivs      int
 	negMod     bool // a % with a possibly negative operand is not decided statically; counts `%` occurrences
 	mods       int
 	slices     int
@@ -517,6 +545,8 @@ func (f *features) walkE(e *E) {
 		}
 		if swallows(fl) {
 			f.swallow = true
+		} else if lazyTight(fl) {
+			f.lazyTight = true
 		}
 		if e.U != "" {
 			f.unary++
@@ -525,6 +555,8 @@ func (f *features) walkE(e *E) {
 			switch o.Op {
 			case "%":
 				f.mods++
+			case "//":
+				f.fdivs++
 			case "+":
 				f.adds++
 			case "and", "or":
